@@ -116,4 +116,19 @@ TEXT["C19"] = {
              "harness calling text/template directly on the same report for generated valid and invalid templates.",
     "ref": "5 (C19)", "note": _NOTE + " text/template is trusted as the oracle, not modelled.",
     "technique": "Lean 4 proof of the glue (engine abstract) + differential run against text/template"}
+TEXT["C15"] = {
+    "level": "Theorems on the object-pool model: every scoring/severity/validity/encoding/string/accessor/report/export operation returns the "
+             "object unchanged (queries_are_pure), repetition returns identical results (repeated_queries), what a history returns about an "
+             "object depends only on the operations on that object (history_free, by induction over histories), interleaved queries do not "
+             "change what the decodes produce (twin). The model is functional, so the weight is on the tie: random histories in one process "
+             "compared op by op with the model and with a query-free twin.",
+    "ref": "5 (C15)", "note": _NOTE,
+    "technique": "Lean 4 proof by induction over operation histories + history/twin correspondence"}
+TEXT["C16"] = {
+    "level": "PARTIAL: data races live in the Go memory model, which is not modelled. Proved on the abstract operations: under the property's "
+             "discipline every interleaving returns to each goroutine what sequential execution returns (interleaving_eq_sequential, induction "
+             "over schedules with a non-interference invariant), shared objects are never changed. Checked on the code: harness built with "
+             "-race, 16 goroutines over shared decoded objects of every level, results compared with sequential execution and the model.",
+    "ref": "5 (C16)", "note": _NOTE + " The race detector and the executed schedules stand in for the memory model.",
+    "technique": "Lean 4 proof by induction over schedules (non-interference) + race-detector runs compared with sequential execution"}
 NOT_YET = {}
